@@ -280,7 +280,7 @@ def run_markov_builder(case, res, via_get_infected=False):
                 sim.directed_percolate_network = tap
                 try:
                     got = EoN.get_infected_nodes(G, tau, gamma, initial_infecteds=list(I0) if len(I0) > 1 or case['seed'] % 2 else I0[0],
-                                                 initial_recovereds=(list(R0) if R0 else None))
+                                                 initial_recovereds=((R0[0] if (len(R0) == 1 and case['seed'] % 3 == 0) else list(R0)) if R0 else None))
                 finally:
                     sim.directed_percolate_network = orig
             else:
